@@ -287,6 +287,7 @@ META_MAPS = [
     MAP(('aa', C('Currency', 'from_value', S('USD'))), ('bb', C('Tag', 'from_value', S('t')))),
     MAP(('aa', C('Bool', 'from_value', B(False))), ('bb', PARSE('NumberExpr', '1 + 2'))),
     MAP(('a-b_C9', C('Null', 'from_default')), ('bb', S('l1\nl2'))),
+    MAP(('aa', N('1')), ('bb', S('x')), ('cc', B(False))),          # three items: separators between items 2..n
 ]
 
 # Iterable[MetaItem | BlockComment] for from_children: incl. comment items, items with their own comments
@@ -298,6 +299,7 @@ META_ITEMS = [
     L(_mi('aa', _ACCOUNT_M), _bc('c\nd', CTX_META)),
     L(_mi('aa', _amount('-1'), leading_comment=S('ml'), inline_comment=S('mi'), trailing_comment=S('mt')),
       _mi('bb', DT('2000-01-01'), inline_comment=S(''))),
+    L(_mi('aa', N('1')), _mi('bb', S('x')), _mi('cc', None)),
 ]
 
 META_VALUES = [           # MetaItem.from_value / Pushmeta.from_value `value`
@@ -322,6 +324,9 @@ CUSTOM_VALUES = [
     L(N('-1'), N('-2')),
     L(N('1'), _amount('-2')),
     L(N('-1'), _amount('-2'), N('-3')),
+    L(N('10'), N('-2'), N('-3')),                                   # a signed number after an already wrapped one
+    L(PARSE('NumberExpr', '(5)'), N('-1')),
+    L(PARSE('NumberExpr', '2 * (3)'), _amount('-1')),
     L(_amount('1'), N('-1')),
     L(PARSE('NumberExpr', '1 + 2'), PARSE('NumberExpr', '-1 + 2')),
     L(N('1'), PARSE('NumberExpr', '+1')),
@@ -338,6 +343,8 @@ CUSTOM_RAW_VALUES = [
     L(_num('-1'), _num('-2')),
     L(_num('1'), _amount('-2')),
     L(_num('-1'), _amount('-2'), _num('-3')),
+    L(_num('10'), _num('-2'), _num('-3')),
+    L(PARSE('NumberExpr', '(5)'), _num('-1')),
     L(_amount('1'), _num('-1')),
     L(PARSE('NumberExpr', '1 + 2'), PARSE('NumberExpr', '-1 + 2')),
     L(_num('1'), PARSE('NumberExpr', '+1')),
@@ -412,11 +419,12 @@ POSTINGS = [
     L(_P_CUR, _P_CHILD),
     L(_P_CMT, _P_FULL),
     L(_P_FULL, _P_CMT),
+    L(_P_AMT, _P_MIN, _P_CUR),
 ]
 
 TAG_LISTS = [L(), L(S('t')), L(S('t'), S('a-b_c/d.e'))]
 LINK_LISTS = [L(), L(S('l')), L(S('l'), S('a-b_c/d.e'))]
-CURRENCY_LISTS = [L(), L(S('USD')), L(S('USD'), S("AB.C-D'E1"))]
+CURRENCY_LISTS = [L(), L(S('USD')), L(S('USD'), S("AB.C-D'E1")), L(S('USD'), S('EUR'), S('GBP'))]
 TAGS_LINKS = [
     L(),
     L(C('Tag', 'from_value', S('t'))),
